@@ -79,7 +79,7 @@ pub fn history_from_bytes(data: &[u8]) -> Option<History> {
     let params = Params::plain(buckets);
     let mut ops = Vec::new();
     while let Some(c) = r.u8() {
-        let k = (c >> 4) as u16 % keys.len() as u16;
+        let k = (c >> 4) as u32 % keys.len() as u32;
         let op = match c & 0x0f {
             0..=4 => {
                 let l = r.u8().unwrap_or(0);
